@@ -36,6 +36,7 @@ type Term struct {
 	Bound []*Term  // quantifier bound variables (bvar terms)
 	id    int
 	hasBV bool // mentions a bound variable
+	hasQ  bool // contains a quantifier
 }
 
 var (
@@ -70,12 +71,18 @@ func mk(t *Term) *Term {
 		if a.hasBV {
 			t.hasBV = true
 		}
+		if a.hasQ {
+			t.hasQ = true
+		}
 	}
 	for _, b := range t.Bound {
 		fmt.Fprintf(&sb, ";%d", b.id)
 	}
 	if t.Op == "bvar" {
 		t.hasBV = true
+	}
+	if t.Op == "forall" || t.Op == "exists" {
+		t.hasQ = true
 	}
 	k := sb.String()
 	if o, ok := termTab[k]; ok {
